@@ -180,6 +180,10 @@ type destinationTripper struct {
 	keepAlives      bool
 	wellKnownSRV    bool
 	dialer          *net.Dialer
+	// wellKnownTransport fetches .well-known documents. It is nil, meaning
+	// http.DefaultTransport, unless the client is limited to allowed / denied
+	// networks: those limits apply to every connection the client makes.
+	wellKnownTransport http.RoundTripper
 }
 
 func newDestinationTripper(skipVerify bool, dnsCache *DNSCache, keepAlives, wellKnownSRV bool, allowCIDRs []string, denyCIDRs []string) *destinationTripper {
@@ -190,6 +194,14 @@ func newDestinationTripper(skipVerify bool, dnsCache *DNSCache, keepAlives, well
 		keepAlives:   keepAlives,
 		wellKnownSRV: wellKnownSRV,
 		dialer:       newDestinationTripperDialer(allowCIDRs, denyCIDRs),
+	}
+	if len(allowCIDRs) > 0 || len(denyCIDRs) > 0 {
+		tripper.wellKnownTransport = &http.Transport{
+			DialContext:       newDestinationTripperDialer(allowCIDRs, denyCIDRs).DialContext,
+			Proxy:             http.ProxyFromEnvironment,
+			TLSClientConfig:   &tls.Config{InsecureSkipVerify: skipVerify}, // nolint: gosec
+			DisableKeepAlives: true,
+		}
 	}
 	time.AfterFunc(destinationTripperReapInterval, tripper.reaper)
 	return tripper
@@ -348,7 +360,7 @@ retryResolution:
 		// If the cache returned nothing then we'll have no results here,
 		// so go and hit the network.
 		if len(resolutionResults) == 0 {
-			resolutionResults, err = ResolveServer(r.Context(), serverName)
+			resolutionResults, err = resolveServer(r.Context(), serverName, true, f.wellKnownTransport)
 			if err != nil {
 				return nil, err
 			}
